@@ -84,6 +84,8 @@ pub enum St {
     Handoff,
     N,
 }
+/// "doubling" is checked up to this many bytes: rounding constants of the chunk-size computation are not part of C18
+pub const DOUBLING_SLACK: usize = 256;
 pub const NST: usize = St::N as usize;
 pub const ST_NAMES: [&str; NST] = [
     "ops", "alloc_ok", "alloc_err", "alloc_panic", "try_panic", "new_chunk", "refusal", "limit_set_ops",
@@ -432,7 +434,7 @@ impl<const M: usize> Sim<M> {
                     }
                     // geometric growth: with no limit and nothing refused, the usable size of a new chunk is at least
                     // twice that of the chunk it succeeds
-                    if self.limit.is_none() && !refused_in_step && self.last_chunk_size > self.k_meta && ev.size.saturating_sub(self.k_meta) < 2 * (self.last_chunk_size - self.k_meta) {
+                    if self.limit.is_none() && !refused_in_step && self.last_chunk_size > self.k_meta && ev.size.saturating_sub(self.k_meta) + DOUBLING_SLACK < 2 * (self.last_chunk_size - self.k_meta) {
                         let m = format!("new chunk of {} bytes is less than double the previous one ({}) although nothing was refused and no limit is set", ev.size, self.last_chunk_size);
                         self.v("C18", m);
                     }
